@@ -9,7 +9,8 @@ seeded/<name>/ first. Then, in a fresh scratch worktree of /repo (under /tmp, re
 end): (1) the repository's unedited suite is run with the change applied, (2) the
 demonstration is run with and without the change, (3) the named checks are pointed at the
 changed tree through VERIF_REPO. Prints a JSON summary and updates seeded/<name>/meta.json
-(keys: suite, demo_without, demo_with, checks). Evidence files of /verif are restored.
+(keys: suite, demo_without, demo_with, checks). Evidence and replays of these runs go to a scratch
+directory (VERIF_SCRATCH_OUT), so several evaluations may run side by side.
 """
 
 import argparse
@@ -57,9 +58,7 @@ def main():
     if r.returncode != 0:
         print("worktree failed", r.stderr)
         return 2
-    ev_backup = tempfile.mkdtemp(prefix="evbk")
-    evdir = os.path.join(HERE, "evidence")
-    shutil.copytree(evdir, os.path.join(ev_backup, "evidence"))
+    scratch_out = tempfile.mkdtemp(prefix="seedout")
     try:
         demo = os.path.join(d, "demo.py")
         if os.path.exists(demo):
@@ -82,7 +81,7 @@ def main():
         props = ALL if a.all else [x for x in a.props.split(",") if x]
         checks = meta.get("checks_%s" % a.tier, {})
         for pid in props:
-            env = dict(os.environ, VERIF_REPO=wt, VERIF_SEED=a.seed)
+            env = dict(os.environ, VERIF_REPO=wt, VERIF_SEED=a.seed, VERIF_SCRATCH_OUT=scratch_out)
             p = sh([os.path.join(HERE, "check"), pid, "--tier", a.tier], env=env)
             nv = p.stdout.count("VIOLATION property=")
             keys = [ln for ln in p.stdout.splitlines() if ln.startswith("violation keys:")]
@@ -98,10 +97,7 @@ def main():
     finally:
         sh(["git", "-C", "/repo", "worktree", "remove", "--force", wt])
         shutil.rmtree(wt, ignore_errors=True)
-        shutil.rmtree(evdir, ignore_errors=True)
-        shutil.copytree(os.path.join(ev_backup, "evidence"), evdir)
-        shutil.rmtree(ev_backup, ignore_errors=True)
-        shutil.rmtree(os.path.join(HERE, "replays"), ignore_errors=True)
+        shutil.rmtree(scratch_out, ignore_errors=True)
     return 0
 
 
